@@ -120,6 +120,9 @@ pub fn check_a(c: &CaseA, obs: &mut Obs) -> Result<(), Fail> {
 
 // ---------------------------------------------------------------- lane B: end to end near the wrap point
 
+/// an id no operation of the lane ever holds (abandon target)
+const UNUSED_ID: i32 = 1_000_000_007;
+
 #[derive(Clone, Debug, Serialize, Deserialize)]
 pub enum Act {
     /// answer one outstanding request (index picked monotonically)
@@ -138,6 +141,11 @@ pub struct CaseB {
     phantom: Vec<i32>,
     /// per handle: its sequential operations
     handles: Vec<Vec<Single>>,
+    /// per operation (flattened, cycled): 0-3 the single operation as listed, 4 a streaming search that stays
+    /// open until the server completes it, 5 the single operation preceded by an abandon() of an unused id
+    /// (the AbandonRequest needs a message id of its own)
+    #[serde(default)]
+    kinds: Vec<u8>,
     script: Vec<Act>,
     probes: u8,
     chunks: Vec<usize>,
@@ -149,8 +157,8 @@ fn strat_b(_: &Ctx) -> BoxedStrategy<CaseB> {
     let handle = vec(simops::single_strat(), 1..4);
     let handles = prop_oneof![6 => vec(handle.clone(), 1..6), 1 => vec(handle, 29..40)];
     let act = prop_oneof![4 => any::<u16>().prop_map(Act::AnswerOne), 2 => Just(Act::AnswerAll), 2 => (1u8..6).prop_map(Act::PrePush), 2 => Just(Act::Rewind)];
-    (0u8..8, vec(id_near_edges(), 0..8), handles, vec(act, 1..12), 0u8..4, crate::props::c01::chunk_plan(), any::<u64>())
-        .prop_map(|(below_max, phantom, handles, script, probes, (chunks, yields), sched)| CaseB { below_max, phantom, handles, script, probes, chunks, yields, sched })
+    (0u8..8, vec(id_near_edges(), 0..8), handles, vec(act, 1..12), 0u8..4, crate::props::c01::chunk_plan(), any::<u64>(), prop_oneof![1 => Just(vec![]), 2 => vec(0u8..6, 1..9)])
+        .prop_map(|(below_max, phantom, handles, script, probes, (chunks, yields), sched, kinds)| CaseB { below_max, phantom, handles, kinds, script, probes, chunks, yields, sched })
         .boxed()
 }
 
@@ -201,12 +209,37 @@ pub fn check_b(c: &CaseB, obs: &mut Obs) -> Result<(), Fail> {
             script.remove(0);
         }
         for h in &cc.handles {
-            let ops: Vec<(usize, Single)> = h.iter().map(|k| { let i = idx; idx += 1; (i, *k) }).collect();
+            let ops: Vec<(usize, Single, u8)> = h.iter().map(|k| { let i = idx; idx += 1; (i, *k, if cc.kinds.is_empty() { 0 } else { cc.kinds[i % cc.kinds.len()] }) }).collect();
             let mut l = conn.ldap.clone();
             let done = completed.clone();
             tasks.push(tokio::spawn(async move {
                 let mut r = Vec::new();
-                for (i, k) in ops {
+                for (i, k, kind) in ops {
+                    if kind == 5 {
+                        let _ = l.abandon(UNUSED_ID).await;
+                    }
+                    if kind == 4 {
+                        let mk = simops::marker(i);
+                        let mut ok = false;
+                        let mut id = 0;
+                        if let Ok(mut st) = l.streaming_search(&mk, ldap3::Scope::Subtree, "(a=b)", vec!["a"]).await {
+                            id = st.ldap_handle().last_id();
+                            loop {
+                                match st.next().await {
+                                    Ok(Some(_)) => continue,
+                                    Ok(None) => {
+                                        ok = true;
+                                        break;
+                                    }
+                                    Err(_) => break,
+                                }
+                            }
+                            let _ = st.finish().await;
+                        }
+                        done.lock().unwrap().insert(i);
+                        r.push((i, id, ok));
+                        continue;
+                    }
                     let res = simops::exec_single(&mut l, k, &simops::marker(i)).await;
                     done.lock().unwrap().insert(i);
                     r.push((i, l.last_id(), res.is_ok()));
@@ -235,6 +268,7 @@ pub fn check_b(c: &CaseB, obs: &mut Obs) -> Result<(), Fail> {
         let mut arrived: Vec<(usize, i64, u8)> = Vec::new();
         let mut answered: HashSet<usize> = HashSet::new();
         let mut last_seen: Option<i64> = None;
+        let mut abandons = 0usize;
         let mut step = 0usize;
         let mut idle = 0;
         loop {
@@ -242,6 +276,26 @@ pub fn check_b(c: &CaseB, obs: &mut Obs) -> Result<(), Fail> {
             let done_now: HashSet<usize> = completed.lock().unwrap().clone();
             while let Some(r) = wire.try_recv() {
                 if let Recv::Msg(Ok(m), _, _) = r {
+                    if let crate::model::Req::Abandon(_) = m.req {
+                        // the AbandonRequest travels under an id of its own: same rules
+                        abandons += 1;
+                        if !(1..=MAX as i64).contains(&m.id) {
+                            problems.push(format!("AbandonRequest id {} outside 1..2^31-1", m.id));
+                        }
+                        if let Some((j, _, _)) = arrived.iter().find(|(j, id, _)| *id == m.id && !done_now.contains(j)) {
+                            problems.push(format!("AbandonRequest travels under id {} which operation {} is still outstanding under", m.id, j));
+                        }
+                        if phantom.contains(&m.id) {
+                            problems.push(format!("AbandonRequest id {} was marked in use when it was issued", m.id));
+                        }
+                        if let Some(prev) = last_seen {
+                            if m.id < prev {
+                                crossed = true;
+                            }
+                        }
+                        last_seen = Some(m.id);
+                        continue;
+                    }
                     let Some(i) = simops::marker_index(&m) else { continue };
                     if !(1..=MAX as i64).contains(&m.id) {
                         problems.push(format!("request id {} outside 1..2^31-1", m.id));
@@ -295,6 +349,9 @@ pub fn check_b(c: &CaseB, obs: &mut Obs) -> Result<(), Fail> {
                 Act::AnswerOne(p) => {
                     if !outstanding.is_empty() {
                         let (i, id, tag) = outstanding[crate::runner::pick_idx(p, outstanding.len())];
+                        if tag == 5 {
+                            wire.push(&RespMsg::new(id, Resp::Entry(crate::model::Entry::simple("cn=e"))).encode());
+                        }
                         wire.push(&RespMsg::new(id, Resp::result(tag, Res::ok("ok"))).encode());
                         answered.insert(i);
                     }
@@ -358,9 +415,9 @@ pub fn check_b(c: &CaseB, obs: &mut Obs) -> Result<(), Fail> {
             }
         }
         let ids: Vec<i64> = arrived.iter().map(|a| a.1).collect();
-        (results, problems, ids, crossed, max_out)
+        (results, problems, ids, crossed, max_out, abandons)
     });
-    let (results, problems, ids, crossed, max_out) = match out {
+    let (results, problems, ids, crossed, max_out, abandons) = match out {
         SimResult::Done(v) => v,
         SimResult::Hang => fail!("c05:hang", "operations near the wrap-around point never completed"),
     };
@@ -382,6 +439,12 @@ pub fn check_b(c: &CaseB, obs: &mut Obs) -> Result<(), Fail> {
     }
     if crossed {
         obs.label("crossed-wrap-point");
+    }
+    if abandons > 0 {
+        obs.label("abandon-requests-id-checked");
+    }
+    if c.kinds.iter().any(|k| *k == 4) {
+        obs.label("open-search-among-operations");
     }
     if crossed || max_out >= 2 {
         obs.nontrivial((c.below_max, &c.phantom, format!("{:?}{:?}", c.handles, c.script)));
